@@ -256,27 +256,37 @@ def gen_pose(rng, edges, n_nodes, cs, lmin_cells, lmax_cells):
     return [pos[j] for j in range(n_nodes)]
 
 
-def gen_scene(rng, thorough=False):
+def gen_scene(rng, thorough=False, crowded=False):
     """One in-domain scene (all animals in general position, on a jittered lattice
-    with spacing >= 3x the largest animal extent, outside the border band)."""
-    for _attempt in range(200):
+    with spacing >= 3x the largest animal extent, outside the border band).
+    crowded=True: 5-6 nodes, 4-5 animals, few missing parts, so that a frame has MORE THAN 16
+    detected peaks (torch.argsort / unique orderings beyond the small-input regime)."""
+    for _attempt in range(400 if crowded else 200):
         sc = gen_config(rng)
+        if crowded:
+            sc["cs"] = rng.choice([1, 2])
+            sc["max_stride"] = max(sc["max_stride"], sc["cs"], sc["ps"])
+            if min(sc["H"], sc["W"]) * float(sc["eff"]) * float(sc["scale"]) < 72:
+                continue
         g = input_geometry(sc)
         cs = sc["cs"]
         border = (3 if sc["refinement"] == "integral" else 1) * cs      # keep clear of the grid border
         vw, vh = float(g["valid_w"]), float(g["valid_h"])
         if min(vw, vh) < 12 * cs or max(g["Hin"], g["Win"]) > 336:
             continue
-        n_nodes = rng.randint(2, 6)
+        n_nodes = rng.randint(5, 6) if crowded else rng.randint(2, 6)
         edges = random_tree(rng, n_nodes)
         sc["n_nodes"], sc["edges"] = n_nodes, edges
         batch = rng.choice([1, 1, 2, 3])
-        n_want = rng.randint(1, 5)
+        n_want = rng.randint(4, 5) if crowded else rng.randint(1, 5)
         frames = []
         ok = True
         for _b in range(batch):
-            animals = place_animals(rng, sc, g, n_want, border, vw, vh)
+            animals = place_animals(rng, sc, g, n_want, border, vw, vh, crowded=crowded)
             if not animals:
+                ok = False
+                break
+            if crowded and sum(visible(p) for a in animals for p in a) <= 16:
                 ok = False
                 break
             frames.append(animals)
@@ -287,11 +297,11 @@ def gen_scene(rng, thorough=False):
     raise RuntimeError("scene generator: no in-domain scene found in 200 attempts")
 
 
-def place_animals(rng, sc, g, n_want, border, vw, vh):
+def place_animals(rng, sc, g, n_want, border, vw, vh, crowded=False):
     cs, f = sc["cs"], g["f"]
     n_nodes, edges = sc["n_nodes"], sc["edges"]
     for _try in range(30):
-        lmax = rng.choice([3.0, 4.0, 6.0])
+        lmax = 3.0 if crowded else rng.choice([3.0, 4.0, 6.0])
         poses = [gen_pose(rng, edges, n_nodes, cs, 2.3, lmax) for _ in range(n_want)]
         ext = 0.0
         boxes = []
@@ -306,6 +316,8 @@ def place_animals(rng, sc, g, n_want, border, vw, vh):
         x1 = min(vw - 1, (g["wc"] - 1) * cs) - border - ext / 2 - jit
         y1 = min(vh - 1, (g["hc"] - 1) * cs) - border - ext / 2 - jit
         if x1 < x0 or y1 < y0:
+            if crowded:
+                return None
             n_want = max(1, n_want - 1)
             continue
         nx, ny = int((x1 - x0) // cell) + 1, int((y1 - y0) // cell) + 1
@@ -324,7 +336,7 @@ def place_animals(rng, sc, g, n_want, border, vw, vh):
             for _t in range(20):                       # sub-pixel nudges until general position holds exactly
                 dx, dy = rng.uniform(-0.5, 0.5) * cs * (_t > 0), rng.uniform(-0.5, 0.5) * cs * (_t > 0)
                 cand = [(snap((p[0] + ox + dx) / float(f)), snap((p[1] + oy + dy) / float(f))) for p in P]
-                p_miss = rng.choice([0.0, 0.15, 0.3, 0.5])
+                p_miss = rng.choice([0.0, 0.1]) if crowded else rng.choice([0.0, 0.15, 0.3, 0.5])
                 cand = [None if rng.random() < p_miss else p for p in cand]
                 vis_pts = [p for p in cand if p is not None]
                 if not vis_pts:
@@ -336,7 +348,7 @@ def place_animals(rng, sc, g, n_want, border, vw, vh):
             if animal is None:
                 break
             animals.append(animal)
-        if len(animals) == k and k >= 1:
+        if len(animals) == k and k >= 1 and (not crowded or k >= 3):
             return animals
     return None
 
@@ -677,6 +689,125 @@ def ideal_separation(sc, margin=0.1):
                         sep = False
         tables.append(ftab)
     return sep, tables
+
+
+# ------------------------------------------------------------------ geometric premise (c03_reassembly_from_geometry)
+def seg_d2(seg, x, y):
+    """Squared distance to a segment exactly as distance_to_edge / IdealPaf.seg_d2 compute it."""
+    sx, sy, dx, dy = seg
+    ex, ey = dx - sx, dy - sy
+    l2 = ex * ex + ey * ey
+    t = ((x - sx) * ex + (y - sy) * ey) / l2
+    t = min(max(t, 0.0), 1.0)
+    return (t * ex - (x - sx)) ** 2 + (t * ey - (y - sy)) ** 2
+
+
+GEO_MAX_SCENES = 2000   # thorough tier: the (pure Python) geometric premise is evaluated on the first 2000 scenes
+GEO_EPS = 2e-4          # the tolerance of the score tie (obligation "every real line score == reference")
+
+
+def geo_premise(sc, res):
+    """The premise `geo_premise` of c03_reassembly_from_geometry, evaluated per frame and edge type on
+    the REAL peaks: parameters r2 (largest squared distance of a true candidate's sampled cells to
+    its own segment), R2 (fixed: w(R2) = 1e-3), kappa (smallest cosine between a true candidate and
+    its segment), m (largest number of sampled cells of a cross candidate nearer than R2 to any
+    segment), P (largest distance penalty of a cross candidate), A (#animals with the edge).
+    Also checks the bounds the theorems DERIVE (c03_ideal_true_score_bound / _cross_score_bound)
+    against every REAL line score.  Returns a dict."""
+    g = input_geometry(sc)
+    ps, n, sig, mls = sc["ps"], sc["n_points"], float(sc["sigma_paf"]), float(MIN_LINE)
+    R2 = sig * math.sqrt(2 * math.log(1000.0))
+    wfar = math.exp(-(R2 * R2) / (2 * sig * sig))
+    out = {"structural": True, "holds": True, "bound_bad": [], "edges": 0, "edges_hold": 0, "edges_structural": 0,
+           "via_margin": 0, "via_saturated": 0}
+    max_len = 0.25 * max(g["hp"], g["wp"], 2 * len(sc["edges"])) * ps
+    for b, animals in enumerate(sc["frames"]):
+        peaks, chans = res["peaks"][b], res["peak_channel_inds"][b]
+        ids = identify_peaks(sc, g, animals, peaks, chans)
+        want = sorted((ai, j) for ai, a in enumerate(animals) for j, p in enumerate(a) if p is not None)
+        if None in ids or sorted(ids) != want or any(sel_paf_dropped(sc, g, a) for a in animals):
+            out["structural"] = out["holds"] = False
+            continue
+        e_inds, ep, ls = res["edge_inds"][b], res["edge_peak_inds"][b], res["line_scores"][b]
+        for k, (u, v) in enumerate(sc["edges"]):
+            rows = [i for i, c in enumerate(e_inds) if c == k]
+            if not rows:
+                continue
+            out["edges"] += 1
+            segs = {}
+            for ai, a in enumerate(animals):
+                if visible(a[u]) and visible(a[v]):
+                    s_, d_ = to_input(g, a[u]), to_input(g, a[v])
+                    segs[ai] = (float(s_[0]), float(s_[1]), float(d_[0]), float(d_[1]))
+            if any((sg[2] - sg[0]) ** 2 + (sg[3] - sg[1]) ** 2 == 0 for sg in segs.values()):
+                out["structural"] = out["holds"] = False
+                continue
+            A = len(segs)
+            r2, kappa, m, P, struct = 0.0, 1.0, 0, 0.0, True
+            cand = []
+            for i in rows:
+                a, bb = ids[ep[i][0]][0], ids[ep[i][1]][0]
+                src, dst = peaks[ep[i][0]], peaks[ep[i][1]]
+                vx, vy = dst[0] - src[0], dst[1] - src[1]
+                ln = math.hypot(vx, vy)
+                if ln == 0 or ls[i] is None or isnan(ls[i]):
+                    struct = False
+                    continue
+                pen = min(0.0, max_len / ln - 1.0)
+                cells = []
+                for q in range(n):
+                    t = q / (n - 1) if n > 1 else 0.0
+                    X, Y = src[0] + vx * t, src[1] + vy * t
+                    cells.append([(min(max(c, 0), g["wp"] - 1) * ps, min(max(r, 0), g["hp"] - 1) * ps)
+                                  for c in round_options(X / ps) for r in round_options(Y / ps)])
+                if a == bb:
+                    if a not in segs or pen != 0.0:
+                        struct = False
+                        continue
+                    sg = segs[a]
+                    sl = math.hypot(sg[2] - sg[0], sg[3] - sg[1])
+                    kappa = min(kappa, ((sg[2] - sg[0]) * vx + (sg[3] - sg[1]) * vy) / (sl * ln))
+                    for opts in cells:
+                        for (x, y) in opts:
+                            r2 = max(r2, seg_d2(sg, x, y))
+                            if any(seg_d2(sg2, x, y) < R2 for c2, sg2 in segs.items() if c2 != a):
+                                struct = False
+                else:
+                    P = max(P, -pen)
+                    cnt = 0
+                    for opts in cells:
+                        near_max = max(sum(seg_d2(sg2, x, y) < R2 for sg2 in segs.values()) for (x, y) in opts)
+                        if near_max >= 2:
+                            struct = False
+                        cnt += near_max >= 1
+                    m = max(m, cnt)
+                cand.append((a == bb, ls[i]))
+            if kappa < 0:
+                struct = False
+            if not struct:
+                out["structural"] = out["holds"] = False
+                continue
+            out["edges_structural"] += 1
+            T = math.exp(-(r2 * r2) / (2 * sig * sig)) * kappa - A * wfar - GEO_EPS
+            C = m / n + A * wfar + GEO_EPS
+            for is_true, x in cand:
+                if is_true and x < T - 1e-6:
+                    out["bound_bad"].append(f"frame {b} edge {k}: true score {x:.5f} < derived lower bound {T:.5f} "
+                                            f"(r2={r2:.3f}, kappa={kappa:.4f}, A={A})")
+                if not is_true and not (-(C + P) - 1e-6 <= x <= C + 1e-6):
+                    out["bound_bad"].append(f"frame {b} edge {k}: cross score {x:.5f} outside derived [{-(C + P):.5f}, {C:.5f}] "
+                                            f"(m={m}, n={n}, A={A}, P={P:.4f})")
+            n_src, n_dst = len({ep[i][0] for i in rows}), len({ep[i][1] for i in rows})
+            n_true = sum(1 for i in rows if ids[ep[i][0]][0] == ids[ep[i][1]][0])
+            via_margin = 3 * C + P < T and C < mls
+            via_sat = n_true == min(n_src, n_dst) and C < T
+            ok = mls <= T and (via_margin or via_sat)
+            out["edges_hold"] += ok
+            out["via_margin"] += bool(ok and via_margin)
+            out["via_saturated"] += bool(ok and via_sat and not via_margin)
+            if not ok:
+                out["holds"] = False
+    return out
 
 
 # ------------------------------------------------------------------ Coq terms
@@ -1065,14 +1196,23 @@ def check(run: core.Run) -> int:
 
     # ---- 3. end-to-end scenes ----------------------------------------------------------------
     n_sc = 8000 if thorough else 400
-    scenes = [gen_scene(rng, thorough) for _ in range(n_sc)]
-    results, premises, seps = [], [], []
+    scenes = [gen_scene(rng, thorough, crowded=(i % 8 == 5)) for i in range(n_sc)]
+    results, premises, seps, geos = [], [], [], []
     sterms, sindex, aterms, aindex = [], [], [], []
     for si, sc in enumerate(scenes):
         g = input_geometry(sc)
         res = run_scene(im, sc, from_config=(si % 2 == 1))
         results.append(res)
         seps.append(ideal_separation(sc)[0])
+        if "raises" in res:
+            geos.append(None)
+        else:
+            try:
+                geos.append(geo_premise(sc, res) if si < GEO_MAX_SCENES else None)
+            except Exception as e:
+                geos.append({"structural": False, "holds": False, "edges": 0, "edges_hold": 0, "edges_structural": 0,
+                             "via_margin": 0, "via_saturated": 0,
+                             "bound_bad": [f"geometric premise cannot be evaluated ({type(e).__name__}: {e})"]})
         if "raises" in res:
             premises.append((False, {"raised": res["raises"], "tables": []}))
         else:
@@ -1112,7 +1252,8 @@ def check(run: core.Run) -> int:
         for key in (f"cs{sc['cs']}", f"ps{sc['ps']}", f"scale{sc['scale']}", f"eff{sc['eff']}", f"batch{len(sc['frames'])}",
                     f"refine_{sc['refinement']}", f"nodes{sc['n_nodes']}", f"reg_{sc['registration']}",
                     f"sigma_paf{sc['sigma_paf']}", f"sigma_cms{sc['sigma_cms']}",
-                    f"animals_per_frame{max(len(f_) for f_ in sc['frames'])}"):
+                    f"animals_per_frame{max(len(f_) for f_ in sc['frames'])}",
+                    "peaks_gt16" if max(sum(visible(p) for a in f_ for p in a) for f_ in sc["frames"]) > 16 else "peaks_le16"):
             dist[key] = dist.get(key, 0) + 1
         n_vis = sum(visible(p) for fr in sc["frames"] for a in fr for p in a)
         run.case(scene_json(sc), nontrivial=n_vis >= 2)
@@ -1163,6 +1304,40 @@ def check(run: core.Run) -> int:
                    reg_bad == 0, f"{reg_bad} scenes differ")
     run.obligation("lemma check: alternative 1 implies alternative 2 (unique optimum) on every real table",
                    lemma_contra == 0, f"{lemma_contra} scenes")
+    # ---- geometric premise (c03_reassembly_from_geometry): derived bounds vs real scores, premise => measured premise
+    geo_bad, geo_scene_holds, geo_contra, big_frames = [], 0, [], 0
+    geo_edges = geo_edges_struct = geo_edges_hold = geo_margin = geo_sat = 0
+    for si, (sc, res, (prem, det), gp) in enumerate(zip(scenes, results, premises, geos)):
+        if "raises" not in res:
+            big_frames += sum(len(pk) > 16 for pk in res["peaks"])
+        if gp is None:
+            continue
+        geo_edges += gp["edges"]
+        geo_edges_struct += gp["edges_structural"]
+        geo_edges_hold += gp["edges_hold"]
+        geo_margin += gp["via_margin"]
+        geo_sat += gp["via_saturated"]
+        for msg in gp["bound_bad"]:
+            geo_bad.append(f"scene {si}: {msg}")
+        if gp["holds"]:
+            geo_scene_holds += 1
+            if not prem:
+                geo_contra.append(si)
+    for msg in geo_bad[:3]:
+        run.log("derived bound broken: " + msg)
+    if geo_bad:
+        run.proof_broken.append("ideal-PAF model (IdealPaf.v) vs generate_pafs/score_paf_lines: " + geo_bad[0][:600])
+    run.obligation("ideal-PAF model tie: every REAL true / cross line score respects the bound derived in Coq "
+                   "(c03_ideal_true_score_bound, c03_ideal_cross_score_bound) from the scene geometry",
+                   not geo_bad, f"{len(geo_bad)} scores outside; {geo_bad[:1]}")
+    run.obligation("c03_reassembly_from_geometry: whenever its geometric premise holds on a scene, score separation "
+                   "(the measured premise of c03_reassembly_partial) holds on the real scores",
+                   not geo_contra, f"scenes {geo_contra[:5]}")
+    run.obligation("generator strength: the geometric premise of c03_reassembly_from_geometry holds on >= 25 % of the "
+                   "edge tables (documented sub-class) and frames with > 16 detected peaks are generated on purpose",
+                   geo_edges_hold >= 0.25 * max(1, geo_edges) and big_frames >= (40 if thorough else 8),
+                   f"{geo_edges_hold}/{geo_edges} edge tables, {geo_scene_holds}/{n_sc} whole scenes, "
+                   f"{big_frames} frames with > 16 peaks")
     frac = n_prem / max(1, n_sc)
     run.obligation("generator strength: the premise of c03_reassembly_partial (score separation, every visible keypoint "
                    "detected once) holds on the REAL scores in >= 95 % of the generated scenes", frac >= 0.95,
@@ -1171,6 +1346,10 @@ def check(run: core.Run) -> int:
         "unit_cases": n_unit, "layout_cases": len(layouts), "writer_cells_checked": w_cells, "corpus_witnesses": n_corpus,
         "scenes": n_sc, "frames": len(sterms), "input_distribution": dist,
         "premise_holds_real_scores": n_prem, "premise_alt1_holds": n_alt1, "alt1_tables_checked_in_coq": len(aterms),
+        "geometric_premise": {"edge_tables": geo_edges, "structural_part_holds": geo_edges_struct,
+                              "premise_holds": geo_edges_hold, "via_margin": geo_margin, "via_saturated_only": geo_sat,
+                              "whole_scenes": geo_scene_holds, "R2_rule": "w(R2) = 1e-3", "eps": GEO_EPS},
+        "frames_with_more_than_16_peaks": big_frames,
         "scenes_not_separated_by_reference": n_rej, "oracle_failures_outside_domain": n_out,
         "min_true_pair_score": tmin, "max_cross_pair_score": cmax, "worst_score_vs_reference": worst_score,
         "rule": "unit case = (PAF tensor, src, dst, edge, n_points, stride, max length, weight); scene = (skeleton, "
@@ -1196,12 +1375,14 @@ def check(run: core.Run) -> int:
         "'ideal maps for a frame' = the training targets of this repo: keypoints * eff_scale * input_scale "
         "(85 % of scenes); 15 % use content registration with the C04 resize term added to the bound",
         "C08 contract (grouping = connected components of accepted matches) and the assignment oracle contract are "
-        "hypotheses of c03_reassembly_partial; score separation is measured per scene, not derived",
+        "hypotheses of c03_reassembly_partial / c03_reassembly_from_geometry; score separation is measured per scene "
+        "AND derived from the scene geometry (geo_premise) for the sub-class reported under coverage.geometric_premise",
     ]
     return run.finish(explanation=(
         "decode, channel addressing and the line-score comparison are proved for all inputs; exact reassembly is "
-        "proved from score separation + the C08 grouping contract (partial: separation itself is measured on every "
-        "scene, not derived from geometry)"))
+        "proved from score separation + the C08 grouping contract; separation is measured on every scene and, for the "
+        "geometric sub-class (c03_reassembly_from_geometry), derived from the ideal-PAF geometry whose bounds are "
+        "checked against every real score"))
 
 
 def replay(run: core.Run, path: str) -> int:
